@@ -422,6 +422,46 @@ def worker_init_inputs(cfg, tier):
                                  cfg, it, tr, flat, [], goal, "init-delays-alpha", "a trainable delay set through init_delays/params does not take effect (or does not saturate at the bounds)", grid=(-1, 1))]
 
 
+def worker_default_delays(cfg, tier):
+    """the delay set through the *distribution*: with the default init_delays, init_inputs starts the episode at the distribution's own delay (its alpha),
+    whatever expected delay the connection carries for the phase shift (connect(delay=...), or a set_delay that only passed a distribution)"""
+    import jax
+    import jax.numpy as jnp
+    from flax.core import FrozenDict
+    from rex.base import GraphState, TrainableDist
+    from vlib import cg, jx, smt
+    from vlib.fixtures import PParams, ProbeNode
+
+    dmin, dmax, D0 = cfg["min"], cfg["max"], cfg["created_delay"]
+    n2 = ProbeNode(name="node2", rate=20)
+    n1 = ProbeNode(name="node1", rate=10)
+    if cfg["via"] == "connect":
+        n1.connect(n2, window=2, blocking=False, delay_dist=TrainableDist.create(D0, dmin, dmax), delay=float(cfg["expected"]))
+    else:  # connect with another distribution, then replace only the distribution (set_delay leaves the expected delay alone)
+        n1.connect(n2, window=2, blocking=False, delay_dist=TrainableDist.create(float(cfg["expected"]), dmin, dmax))
+        n1.inputs["node2"].set_delay(delay_dist=TrainableDist.create(D0, dmin, dmax))
+    gs0 = GraphState(params=FrozenDict({"node1": PParams(a=jnp.float32(0.01))}))
+    it = jx.Interp()
+    tr = jx.Traced(lambda g_: n1.init_inputs(jax.random.PRNGKey(0), g_)["node2"], gs0)
+    flat = tr.sym_inputs(it, "q")
+    out = tr.run(it, flat)
+    lo = Fraction(float(np.float32(dmin)))
+    hi = lo + Fraction(float(np.float32(float(dmax) - float(dmin))))
+    want = (Fraction(float(np.float32(D0))) - lo) / (hi - lo)
+    a = out.delay_dist.alpha.item()
+    tol = Fraction(1, 10**5)  # alpha is a float32 constant computed by create(); compared up to float32 rounding
+    v, m, s_ = smt.check([], z3.And(a - want <= tol, want - a <= tol), 30)
+    o = Ob("init_inputs with the default init_delays starts at the distribution's own delay (alpha of the connection's TrainableDist), not at the connection's expected delay",
+           v, s_, cfg, key="init-delays-default", what=f"default init_delays does not start the episode at the distribution's delay {D0} (connection's expected delay: {cfg['expected']})")
+    if v == "sat":
+        try:
+            got = float(n1.init_inputs(jax.random.PRNGKey(0), gs0)["node2"].delay_dist.alpha)
+            o.replayed = abs(got - float(want)) > 1e-5
+        except BaseException:  # noqa
+            o.replayed = None
+    return [o]
+
+
 def worker_generated_min(cfg, tier):
     """graphs generated (and augmented) for a trainable connection record the MINIMAL delay, whatever delay the connection was created with"""
     import jax
@@ -574,6 +614,8 @@ def run(rep):
     rep.encode(BaseNode.init_inputs, BaseNode.init_delays)
     obs += pmap("props.c10", "worker_init_inputs", [dict(min=0.0, max=0.05, created_delay=0.04), dict(min=0.0125, max=0.0625, created_delay=0.05),
                                                      dict(min=0.0, max=0.05, created_delay=0.04, input_name="obs")], rep.tier)
+    obs += pmap("props.c10", "worker_default_delays", [dict(min=0.0, max=0.05, created_delay=0.04, expected=0.01, via="connect"), dict(min=0.0125, max=0.0625, created_delay=0.02, expected=0.06, via="connect"),
+                                                       dict(min=0.0, max=0.05, created_delay=0.04, expected=0.01, via="set_delay")], rep.tier)
     if rep.tier == "thorough":
         obs += pmap("props.c10", "worker_end_to_end", [dict(c, ts_max=0.15) for c in ecfg[:1]], rep.tier)
     rep.add_all(obs)
